@@ -279,6 +279,8 @@ enum Mutation {
     Extend(u8),
     InsertNop(u16, u8),
     ZeroLenPush(u16, u8),
+    /// pad with `n` no-op opcodes at a token boundary (Bitcoin's 201-opcode limit is not a template rule)
+    PadNops(u16, u8, u16),
 }
 
 fn mutation() -> BS<Mutation> {
@@ -288,6 +290,7 @@ fn mutation() -> BS<Mutation> {
         2 => any::<u8>().prop_map(Mutation::Extend),
         3 => (any::<u16>(), prop_oneof![Just(0x61u8), 0xb0u8..=0xb9]).prop_map(|(p, b)| Mutation::InsertNop(p, b)),
         1 => (any::<u16>(), prop_oneof![Just(0x00u8), Just(0x4cu8), Just(0x4du8), Just(0x4eu8)]).prop_map(|(p, b)| Mutation::ZeroLenPush(p, b)),
+        1 => (any::<u16>(), prop_oneof![Just(0x61u8), 0xb0u8..=0xb9], prop_oneof![2 => 2u16..40, 1 => 190u16..210, 1 => 210u16..600]).prop_map(|(p, b, n)| Mutation::PadNops(p, b, n)),
     ].boxed()
 }
 
@@ -338,6 +341,13 @@ fn apply_mutation(mut s: Vec<u8>, m: &Mutation) -> Vec<u8> {
             let bd = boundaries(&s);
             let at = bd[mono(*p, bd.len())].min(s.len());
             s.insert(at, *b);
+        }
+        Mutation::PadNops(p, b, n) => {
+            let bd = boundaries(&s);
+            let at = bd[mono(*p, bd.len())].min(s.len());
+            let tail = s.split_off(at);
+            s.extend(std::iter::repeat(*b).take(*n as usize));
+            s.extend(tail);
         }
         Mutation::ZeroLenPush(p, b) => {
             let bd = boundaries(&s);
@@ -580,7 +590,7 @@ pub fn tx(cfg: &TxCfg) -> BS<TxSpec> {
     small.allow_segwit = false;
     let (i_small, o_small) = (input(&small), output(&small));
     (prop_oneof![Just(1u32), Just(2u32), any::<u32>()], prop_oneof![2 => Just(0u32), 1 => any::<u32>()], nin.prop_flat_map(move |n| if n >= 250 { vec(i_small.clone(), n) } else { vec(i.clone(), n) }), nout.prop_flat_map(move |n| if n >= 250 { vec(o_small.clone(), n) } else { vec(o.clone(), n) }), seg)
-        .prop_map(|(version, locktime, inputs, outputs, segwit)| TxSpec { version, locktime, inputs, outputs, segwit })
+        .prop_map(|(version, locktime, inputs, outputs, segwit)| TxSpec { version, locktime, inputs, outputs, segwit, dup_of: None })
         .boxed()
 }
 
@@ -590,12 +600,12 @@ pub fn coinbase(cfg: &TxCfg) -> BS<TxSpec> {
     let o = output(&c);
     let i = input(&c);
     (prop_oneof![Just(1u32), Just(2u32), any::<u32>()], prop_oneof![3 => Just(0u32), 1 => any::<u32>()], i, vec(o, 1..=3), prop_oneof![3 => Just(false), 1 => Just(true)])
-        .prop_map(|(version, locktime, input, outputs, segwit)| TxSpec { version, locktime, inputs: vec![input], outputs, segwit })
+        .prop_map(|(version, locktime, input, outputs, segwit)| TxSpec { version, locktime, inputs: vec![input], outputs, segwit, dup_of: None })
         .boxed()
 }
 
 pub fn auxpow(cfg: &TxCfg) -> BS<AuxPowSpec> {
-    let branch = weighted(vec![(4, Just(0u16).boxed()), (8, (1u16..12).boxed()), (2, (12u16..=40).boxed()), (1, Just(32u16).boxed())]);
+    let branch = weighted(vec![(8, Just(0u16).boxed()), (16, (1u16..12).boxed()), (4, (12u16..=40).boxed()), (2, Just(32u16).boxed()), (1, prop_oneof![Just(252u16), Just(253u16), Just(255u16), Just(256u16), Just(257u16), Just(300u16), Just(1000u16)].boxed())]);
     (coinbase(cfg), any::<u8>(), branch.clone(), any::<u32>(), branch, any::<u32>())
         .prop_map(|(coinbase, seed, cb_branch_len, cb_mask, chain_branch_len, chain_mask)| AuxPowSpec { coinbase, seed, cb_branch_len, cb_mask, chain_branch_len, chain_mask })
         .boxed()
@@ -666,6 +676,7 @@ pub fn block(cfg: &ChainCfg, coin: Coin) -> BS<BlockSpec> {
     let t = tx(&cfg.tx);
     let aux = if coin.auxpow_threshold().is_some() { prop_oneof![1 => Just(None), 3 => auxpow(&cfg.tx).prop_map(Some)].boxed() } else { Just(None).boxed() };
     let dup = if cfg.dup_coinbase { prop_oneof![6 => Just(None), 1 => any::<u16>().prop_map(Some)].boxed() } else { Just(None).boxed() };
+    let t: BS<TxSpec> = if cfg.dup_coinbase { (t, prop_oneof![12 => Just(None), 1 => any::<u16>().prop_map(Some)]).prop_map(|(mut t, d)| { t.dup_of = d; t }).boxed() } else { t };
     (block_version(coin), cfg.time.clone(), any::<u32>(), any::<u32>(), aux, coinbase(&cfg.tx), cfg.ntx.clone().prop_flat_map(move |n| vec(t.clone(), n)), dup)
         .prop_map(|(version, time, bits, nonce, auxpow, coinbase, txs, dup_coinbase)| BlockSpec { version, time, bits, nonce, auxpow, coinbase, txs, dup_coinbase })
         .boxed()
